@@ -3,8 +3,8 @@
 
 Mirror of the module-level regexes of `alembic/script/base.py`
 
-    _sourceless_rev_file  = re.compile(r"(?!\.\#|__init__)(.*\.py)(c|o)?$")
-    _only_source_rev_file = re.compile(r"(?!\.\#|__init__)(.*\.py)$")
+    _sourceless_rev_file  = re.compile(r"(?!\.\#|__init__\.)(.*\.py)(c|o)?$")
+    _only_source_rev_file = re.compile(r"(?!\.\#|__init__\.)(.*\.py)$")
     _legacy_rev           = re.compile(r"([a-f0-9]+)\.py$")
     _split_on_space_comma = re.compile(r", *|(?: +)")
 
@@ -34,18 +34,17 @@ inductive Kind where
   | py | pyc | pyo
 deriving DecidableEq, Repr
 
-/-- the negative look-ahead `(?!\.\#|__init__)`: true = the look-ahead *rejects* the name.
-    Note that it rejects every name that merely *starts with* `__init__` (finding C19-F13).
-    `initDot = true` is the repaired look-ahead `(?!\.\#|__init__\.)`, which rejects only the
-    module called `__init__`; the harness determines which of the two the tree under test has
-    (by asking its regex about `__init__x.py`) and passes it in `Cfg.initDot`. -/
-def lookaheadRejects (initDot : Bool) (n : Name) : Bool :=
-  startsWith lockPrefix n || startsWith (if initDot then initPrefix ++ ['.'] else initPrefix) n
+/-- the negative look-ahead `(?!\.\#|__init__\.)`: true = the look-ahead *rejects* the name:
+    Emacs lock files `.#…` and the module called exactly `__init__` (`__init__.py`,
+    `__init__.pyc`, `__init__.cpython-312.pyc`, …).  A name that merely starts with `__init__`
+    (`__init__x.py`) is not rejected. -/
+def lookaheadRejects (n : Name) : Bool :=
+  startsWith lockPrefix n || startsWith (initPrefix ++ ['.']) n
 
 /-- `_sourceless_rev_file.match(n)` when `sourceless`, else `_only_source_rev_file.match(n)`:
     `some (group 1, which suffix)` or `none`. -/
-def matchRevFile (initDot sourceless : Bool) (n : Name) : Option (Name × Kind) :=
-  if lookaheadRejects initDot n then none
+def matchRevFile (sourceless : Bool) (n : Name) : Option (Name × Kind) :=
+  if lookaheadRejects n then none
   else if endsWith dotPy n then some (n, .py)
   else if sourceless && endsWith dotPyc n then some (n.dropLast, .pyc)
   else if sourceless && endsWith dotPyo n then some (n.dropLast, .pyo)
